@@ -31,7 +31,8 @@ class PollerModel:
         self.as_s, self.as_n = I('mono_s'), I('mono_n')
         self.t_refid, self.cfg_refid, self.phc_val = I('tracking_ref_id'), I('configured_ref_id'), I('phc_error_bound')
         self.recv_ok, self.recv_msg, self.recv_err = B('recv_ok'), I('recv_msg'), I('recv_err')
-        self.tracking = Struct([self.t_refid] + [Opaque('tracking.%d' % i) for i in range(1, 14)])
+        self.t_ref_ns = I('tracking_ref_time_ns')
+        self.tracking = Struct([self.t_refid] + [Opaque('tracking.%d' % i) if i != 4 else Struct([self.t_ref_ns]) for i in range(1, 14)])      # field 4: ref_time
         self.ngrace = 0
 
     def env(self):
@@ -92,6 +93,11 @@ def msg_disc(v):
 def check_c13(tier, seed):
     ck = Check('C13', tier, seed)
     prog, mir_wall = load_dlib_program()
+    return poller_table(ck, prog, mir_wall, tier, seed)
+
+
+def poller_table(ck, prog, mir_wall, tier, seed, only_phc=False):
+    """the message table of one poller iteration (C13); with only_phc: just the clauses about the PHC term of the messages (C07)"""
     pm = PollerModel(prog)
     S = pm.run()
     M = pm.msg
@@ -139,6 +145,18 @@ def check_c13(tier, seed):
         f = dict(x.split('=', 1) for x in out.split()[1:] if '=' in x)
         want = expected_msg(some, grace, cfg, cfg_id, t_id, phc_ok, phc_val)
         got = f.get('msgs', '')
+        if f.get('n') == '1' and got.startswith(want) and getattr(S, 'carried_struct', None) and some:
+            # the loop keeps structured state from one poll to the next (a cache): two polls with the same report, the PHC file
+            # holds another value at the first one; the second message must be the documented one for the second poll
+            first = ('ok:%d' % (phc_val + 7919)) if phc_ok else 'ok:7919'
+            out2 = rp.ask('poller %d %s %d %d %d %s second=%s' % (some, '%d' % grace if gb == grace else ('10' if gb else '01'), cfg, cfg_id, t_id, first, ('ok:%d' % phc_val) if phc_ok else 'missing'))
+            f2 = dict(x.split('=', 1) for x in out2.split()[1:] if '=' in x) if out2.startswith('ok') else {}
+            msgs2 = f2.get('msgs', '').split('|')
+            if f2.get('n') == '2' and not msgs2[1].startswith(want):
+                stats[1] += 1
+                ck.violation('poller-message', 'two successive polls of the real poller loop with the same report (PHC configured=%s, configured ref id=%d, report ref id=%d); the PHC error-bound file held %s at the first poll and %s at the second: the second message is %s ; documented: %s'
+                             % (cfg, cfg_id, t_id, first, ('%d' % phc_val) if phc_ok else 'nothing readable', msgs2[1], want), {'cmd': 'poller', 'native': out2})
+                return 'message'
         if f.get('n') != '1' or not got.startswith(want):
             stats[1] += 1
             ck.violation('poller-message', 'one iteration of the real poller loop with (chronyd answered=%s, within grace=%s%s, PHC configured=%s, configured ref id=%d, report ref id=%d, PHC read ok=%s) sent %s message(s): %s ; documented: %s'
@@ -165,21 +183,27 @@ def check_c13(tier, seed):
         ch, msg = sends[0].args
         d = msg_disc(msg)
         chd = ch.disc() if isinstance(ch, Enum) else None
-        pr.prove(label + ': message goes to the ShmWriter mailbox', pc, (chd == pm.chan['ShmWriter']) if chd is not None else z3.BoolVal(False))
-        pr.prove_cegar(label + ': message kind is the documented one for (answer?, PHC configured?, ref ids equal?, PHC read ok?, within grace?)', pc, d == exp, confirm, lambda m: [])
+        if not only_phc:
+            pr.prove(label + ': message goes to the ShmWriter mailbox', pc, (chd == pm.chan['ShmWriter']) if chd is not None else z3.BoolVal(False))
+            pr.prove_cegar(label + ': message kind is the documented one for (answer?, PHC configured?, ref ids equal?, PHC read ok?, within grace?)', pc, d == exp, confirm, lambda m: [])
         if 'ClockErrorBoundData' in msg.p:
             tup = msg.p['ClockErrorBoundData'].f[0]
             pr.prove_cegar(label + ': the PHC error bound is added exactly when the configured reference id matches the report\'s', z3.And(pc, d == M['ClockErrorBoundData']),
                            z3.And(tup.f[1] == exp_phc, tup.f[0].f[0] == pm.t_refid), confirm, lambda m: [])
             pr.prove_cegar(label + ': a report whose PHC error bound could not be read is never used as a measurement', z3.And(pc, match, z3.Not(pm.phc_ok)), d != M['ClockErrorBoundData'], confirm, lambda m: [], need_reach=False)
         # a failed send must not be swallowed (the daemon has to die so that its supervisor restarts it)
-        if a.kind == 'stop':
+        if a.kind == 'stop' and not only_phc:
             pr.prove(label + ': the loop continues only after a successful send', pc, z3.Or(pm.send_ok, z3.Not(pm.clock_ok)), need_reach=False)
     # every combination of answers is handled by some path
     allg = z3.Or([a.guard for g, a in alts])
     keepv = [v for l, (v, ty) in S.carried.items() if ty == 'bool']
-    pr.prove('the iteration paths cover every combination of environment answers (no panic except on a broken channel)', z3.And(*( [keepv[0]] if keepv else [])), z3.Or(allg, z3.And(pm.clock_ok, z3.Not(pm.send_ok))), need_reach=False)
+    if not only_phc:
+        pr.prove('the iteration paths cover every combination of environment answers (no panic except on a broken channel)', z3.And(*( [keepv[0]] if keepv else [])), z3.Or(allg, z3.And(pm.clock_ok, z3.Not(pm.send_ok))), need_reach=False)
     rp.close()
+    if only_phc:
+        ck.absorb(pr, 'poller: ')
+        ck.cov['poller_phc_term'] = {'iteration_paths': len(alts), 'counterexamples_replayed': stats[0], 'confirmed': stats[1]}
+        return None
     ck.cov['counterexamples_replayed'], ck.cov['counterexamples_confirmed'] = stats
     ck.cov['iteration_paths'] = len(alts); ck.cov['event_shapes'] = sorted(' '.join(s) for s in shapes)
     # ---- grace-period arithmetic over a symbolic monotone Instant clock
@@ -456,8 +480,8 @@ def check_c12(tier, seed):
     for i, o in enumerate(outs):
         evs = [e for e in o.state.trace if e.kind == 'clock_gettime']
         ids = [z3.simplify(e.args[0]) for e in evs]
-        good = len(ids) >= 1 and z3.is_int_value(ids[0]) and ids[0].as_long() == 0 and (len(ids) < 2 or (z3.is_int_value(ids[1]) and ids[1].as_long() == 6)) and len(ids) <= 2
-        pr2.prove('client path %d: CLOCK_REALTIME is read first, the monotonic clock second, nothing else' % i, o.state.pcond(), z3.BoolVal(bool(good)))
+        good = len(ids) >= 1 and z3.is_int_value(ids[0]) and ids[0].as_long() == 0 and (len(ids) < 2 or (z3.is_int_value(ids[1]) and ids[1].as_long() == 6))
+        pr2.prove('client path %d: CLOCK_REALTIME is read first, the monotonic clock second (reads on this path: %d)' % (i, len(ids)), o.state.pcond(), z3.BoolVal(bool(good)))
         rv = o.value
         if 'Ok' in rv.p and 'Err' not in rv.p:
             tup = rv.p['Ok'].f[0]
@@ -466,15 +490,29 @@ def check_c12(tier, seed):
             pr2.prove('client path %d: the interval is centred on the first (realtime) reading' % i, o.state.pcond(), e_ns + l_ns == 2 * n_['real'])
     ck.absorb(pr2, 'client: ')
     if pr2.failed:
-        # order violations are properties of the code's structure: replay natively where possible (client side)
+        # replay natively under a virtual clock in which every read takes time (2 ms, then 30 s per read): the first two reads must be
+        # REALTIME then the monotonic clock, and the interval must be centred on that first realtime reading
         rp = common.Replay('debug')
-        out = rp.ask('now 0 0 10 0 10000 1000 1 2 0 2 0')
+        found = False
+        for adv in (2_000_000, 30 * NS, 0):
+            cmd = 'now 0 0 1000 0 10000 1000 1 100 0 2 0 %d' % adv
+            out = rp.ask(cmd)
+            reads = out.split('reads=')[-1] if 'reads=' in out else ''
+            rl = reads.split(',')
+            if not out.startswith('ok'):
+                continue
+            t = out.split()
+            e_ns = int(t[1]) * NS + int(t[2]); l_ns = int(t[3]) * NS + int(t[4])
+            if rl[:2] != ['0', '6']:
+                ck.violation('client-read-order', 'ClockErrorBound::now() read the clocks in the order %s (expected CLOCK_REALTIME=0 then CLOCK_MONOTONIC_COARSE=6)' % reads, {'cmd': cmd, 'native': out})
+                found = True; break
+            if e_ns + l_ns != 2 * (100 * NS):
+                ck.violation('client-read-order', 'with %d ns passing at every clock read, ClockErrorBound::now() (reads %s) returns an interval centred on %d ns, not on its first realtime reading (100 s): a delay after the monotonic read moves the centre without widening the interval'
+                             % (adv, reads, (e_ns + l_ns) // 2), {'cmd': cmd, 'native': out})
+                found = True; break
         rp.close()
-        reads = out.split('reads=')[-1] if 'reads=' in out else ''
-        if pr2.failed and reads != '0,6':
-            ck.violation('client-read-order', 'ClockErrorBound::now() read the clocks in the order %s (expected CLOCK_REALTIME=0 then CLOCK_MONOTONIC_COARSE=6)' % reads, {'cmd': 'now', 'native': out})
-        elif pr2.failed:
-            ck.inconclusive.append('client-side clause failed in the encoding but the native read order is ' + reads)
+        if not found:
+            ck.inconclusive.append('client-side clause failed in the encoding but the native runs are centred on the first realtime reading')
     fin(ck, pm, mir_wall)
     ck.cov['bounds'] = {'poller': 'all paths of one loop iteration', 'client': 'all return paths of ClockErrorBound::now() over the C05 domain', 'delays': 'the order is structural: it holds for every delay between the steps'}
     return ck.finish()
